@@ -58,6 +58,9 @@ type Gen struct {
 	inlined  []string
 	knownFns map[string]bool // function keys recorded in locks/functions.json (root Gen only)
 	loopVariants map[string]string // loops with a recorded termination argument (nil: not demanded)
+	termination  bool                  // props "termination": every loop and every recursive call needs a proved variant (termination.go)
+	termCyc      map[*ssa.Function]int // functions on a cycle of the call graph -> id of their SCC
+	structLoops  []string              // loops that end by the semantics of range (no obligation), for the evidence
 	privCells map[*ssa.Alloc][]*ssa.MakeClosure
 	outer    *Env            // inlined callee: the caller's variables at the call
 	outerAlias map[string]string
@@ -1134,7 +1137,15 @@ func (g *Gen) autoBounds(b *ssa.BasicBlock) []autoBound {
 
 func (g *Gen) loopHead(b *ssa.BasicBlock, pass1 map[int]map[string]bool) {
 	h := b.Index
-	if g.loopVariants != nil && g.pass == 2 && strings.HasPrefix(b.Comment, "for.") {
+	if g.termination && g.pass == 2 {
+		name := fmt.Sprintf("loop%d", g.headOrd[h])
+		if structuralLoop(b) {
+			g.structLoops = append(g.structLoops, g.key+"#"+name)
+		} else if _, ok := g.loopVariants[g.key+"#"+name]; !ok && !g.hasDecreases(g.headOrd[h]) {
+			// neither a range loop nor a loop with a variant (the dec obligations are generated at its back edges)
+			g.oblige("termination", name, "", []string{g.prop}, false, "false", ab0pos(b))
+		}
+	} else if g.loopVariants != nil && g.pass == 2 && strings.HasPrefix(b.Comment, "for.") {
 		name := fmt.Sprintf("loop%d", g.headOrd[h])
 		if _, ok := g.loopVariants[g.key+"#"+name]; !ok {
 			// a `for` loop without a termination argument on a path where every operation has to be bounded
